@@ -925,3 +925,52 @@ theorem C15_fair_run_exists :
   obtain ⟨k1, _, h⟩ := C15_persistent_change_eventually_delivered 0 5 exSt exLb ex_isRun rfl ex_fair ex_time
     (fun k => (ex_labels k).1) 0 5 (fun j _ => ex_target j) (fun j _ => (ex_labels j).2)
   exact ⟨k1, h⟩
+
+/-! ## the fingerprint is committed only together with a delivery (seeded C15-m11) -/
+
+/-- **The bookkeeping is committed on the success return path only.** For every poll (any state, any behaviour of the
+    target on either protocol version): if the hash fields after the poll differ from those before it, the poll's
+    callback is `UpdateDesc` of the description it parsed; equivalently, a poll that reports an error — or stays silent —
+    leaves `lastProtoHash` and `lastServicesHash` exactly as they were, so the next successful poll is still judged against
+    the contract delivered last (`C15_failure_then_recovery`, `C15_updates`). -/
+theorem C15_fingerprint_committed_only_with_delivery {H D : Type} [DecidableEq H] (sha : Bytes → H) (st : RState H)
+    (env : Version → Attempt D) :
+    (((pollStep sha st env).1.lastProtoHash ≠ st.lastProtoHash ∨ (pollStep sha st env).1.lastServicesHash ≠ st.lastServicesHash) →
+      ∃ d, (pollStep sha st env).2.1 = [.update d]) ∧
+    ((∀ d, (pollStep sha st env).2.1 ≠ [.update d]) →
+      (pollStep sha st env).1.lastProtoHash = st.lastProtoHash ∧ (pollStep sha st env).1.lastServicesHash = st.lastServicesHash) := by
+  have key := resolveLoop_commit sha env st st.methodPriority 0 []
+  have hcb : ∀ d, (resolveLoop sha env st st.methodPriority 0 []).2.1 = .desc d → (pollStep sha st env).2.1 = [.update d] := by
+    intro d hd
+    simp [pollStep, resolve, hd, callbacksOf]
+  have hst : (pollStep sha st env).1 = (resolveLoop sha env st st.methodPriority 0 []).1 := by simp [pollStep, resolve]
+  rw [hst]
+  refine ⟨fun hne => ?_, fun hno => ?_⟩
+  · rcases key with ⟨d, hd⟩ | ⟨h1, h2⟩
+    · exact ⟨d, hcb d hd⟩
+    · rcases hne with h | h
+      · exact absurd h1 h
+      · exact absurd h2 h
+  · rcases key with ⟨d, hd⟩ | h
+    · exact absurd (hcb d hd) (hno d)
+    · exact h
+
+/-- The code has the shape the model follows: UNNAMED results (a deferred function cannot change what `return` returns),
+    the only defer is the plain `client.close()` call, and from the first hash assignment to the end of the body there is
+    nothing but the two assignments, a log line and `return parsed.desc, nil`. -/
+theorem C15_facts_commit_shape :
+    GB.Generated.resolverCommitShape =
+      ["results:unnamed", "defer:client.close()", "save:lastProtoHash", "save:lastServicesHash", "log", "return:parsed.desc,nil"] := by
+  decide
+
+/-- **Committing before the stream is finished loses the update for good** (kernel-checked witness against the seeded
+    variant): a fully answered first poll whose stream ends uncleanly reports an error but has stored the hashes; the
+    following clean poll of the same contract is silent — the watcher never gets it. The model of the real code delivers
+    at once, and so does the specification (the poll succeeded). -/
+theorem C15_commit_before_finish_fails :
+    (let p1 := resolveWithMethodFinishAfterCommit (fun b => b) (RState.init Bytes) (.fetched exO1 (some 1)) false
+     callbacksOf p1.2 = [Callback.reportError .other] ∧ p1.1.lastProtoHash ≠ none ∧
+     callbacksOf (resolveWithMethod (fun b => b) p1.1 (.fetched exO1 (some 1))).2 = ([] : List (Callback Nat))) ∧
+    callbacksOf (resolveWithMethod (fun b => b) (RState.init Bytes) (.fetched exO1 (some 1))).2 = [Callback.update 1] ∧
+    (specPoll none (.fetched exO1 (some 1))).2 = [Callback.update 1] := by
+  decide
